@@ -49,6 +49,12 @@ class PLISTNode(ContainerNode):
     def __len__(self) -> int:
         return 1
 
+    def __eq__(self, other):
+        return isinstance(other, PLISTNode) and self.root == other.root
+
+    def __hash__(self):
+        return hash(self.root)
+
 
 def build_tree(path: str, options: Optional[BuildOptions] = None, *args, **kwargs) -> PLISTNode:
     """Constructs a PLIST tree from an PLIST file."""
